@@ -91,6 +91,10 @@ def signature(case, v, prev="", o=None, prev_is_comment=False):
 def run(ctx):
     _fmt.selftest(ctx)
     cases = _fmt.gen_cases(ctx, n_single=ctx.pick(1500, 100000), n_sim=ctx.pick(300, 3000), max_files=ctx.pick(6, 1000))
+    # dense families (spec/FmtFocus.tla): escape-sequence strings x quote_style x call-parens (all), doc blocks x emmy_doc
+    # options (all), trailing-comment groups x comment options (quick: the min_spaces = 2 third)
+    quick_keep = lambda c: c["src"] != "focus/comment" or c["cfg"]["comments"]["line_comment_min_spaces_before"] == 2
+    cases += _fmt.focus_cases(ctx, len(cases), keep=quick_keep if ctx.quick else None)
     out = _fmt.run_formatter(ctx, cases)
     runs = []
     by_id = {c["id"]: c for c in cases}
@@ -128,13 +132,16 @@ def run(ctx):
             "text": c["text"] if len(c["text"]) < 600 else None})
     ctx.validated(len(runs))
     ctx.note("normalisations_exercised", used_total)
-    for c in cases[:3] + cases[-5:-3]:
+    first = lambda pre: [c for c in cases if c["src"].startswith(pre)][:1]
+    for c in cases[:3] + first("std/") + first("focus/quote") + first("focus/comment") + first("focus/doc"):
         ctx.sample({"src": c["src"], "text": c["text"][:200], "cfg": _fmt.model_cfg(c["cfg"])})
     for sig, ds in sorted(found.items()):
         srcs = sorted({d["src"] for d in ds})
         ctx.violation(sig, {"count": len(ds), "sources": srcs[:12], "first": ds[0], "more": ds[1:3]})
     ctx.rule("a case = (program, configuration); programs: every single statement of FmtGen.tla x 4 corner configurations "
              "(sampled in quick), TLC-simulated multi-statement programs x random lattice points, bundled std files x "
-             "lattice points; non-trivial = source without syntax errors and >= 3 tokens")
+             "lattice points; FmtFocus.tla families: strings with escape sequences next to quotes x quote_style x call-parens, "
+             "trailing-comment groups x comment options, doc blocks x emmy_doc options; "
+             "non-trivial = source without syntax errors and >= 3 tokens")
     ctx.assume("tokens are those of emmylua_parser on both sides (a token the lexer loses on both sides is invisible here; C01)")
     ctx.assume("allowed normalisations as written in spec/FmtTokens.tla; `;` <-> `,` between table fields counts as a separator normalisation")
